@@ -330,6 +330,32 @@ def gen_union(rng, b, lgs):
         u = b.reg(); b.ops.append([10, u, lgu, 9001]); b.ops.append([11, u, rs]); b.ops.append([12, u, b.reg()])
         b.tags.add('seed-mismatch')
 
+def gap_pair_ops():
+    """op 32 (low_level_compress_pairs / uncompress_pairs with a given num_base_bits): sorted pairs whose row gaps make the Golomb
+       unary part hit 255, 256, 257, 511, 512, 513, 65535, 65536, 65537 (first pair = absolute row, and between pairs), for every base
+       bits value for which such a row fits below 2^26; 1, 2, 3, 10 and 130 pairs"""
+    chunks = []
+    for nbb in range(0, 27):
+        ops = []
+        for t in [255, 256, 257, 511, 512, 513, 1000, 65535, 65536, 65537]:
+            if (t + 2) << nbb >= 1 << 26: continue
+            lo = (1 << nbb) - 1
+            for n in [1, 2, 3, 10, 130]:
+                rows = [(t << nbb) | (lo if n % 2 else 0)]                     # first pair: gap = absolute row
+                for i in range(1, n):
+                    gap = (t << nbb) + i if i == n // 2 and ((rows[-1] + (t << nbb) + i) < (1 << 26)) else (i % 3)
+                    rows.append(rows[-1] + gap)
+                if rows[-1] >= 1 << 26: continue
+                ps = []; prev = None
+                for i, row in enumerate(rows):
+                    col = (7 * i + 3) % 64 if row != prev else min(63, (ps[-1] & 63) + 1 + i % 2)
+                    if ps and ((row << 6) | col) <= ps[-1]: col = min(63, (ps[-1] & 63) + 1)
+                    if ps and ((row << 6) | col) <= ps[-1]: continue
+                    ps.append((row << 6) | col); prev = row
+                ops.append([32, nbb] + ps)
+        if ops: chunks.append(ops)
+    return chunks
+
 def gen(rng, tier):
     quick = tier == 'quick'
     cases = []
@@ -382,6 +408,19 @@ def gen(rng, tier):
         b.ops.append([20, h0, h1, lgk])
     b.tags.add('rowcol')
     add('rowcol', b)
+    # (f) pair codec with LARGE unary values (row gaps >= 256 * 2^b): deterministic, every tier
+    for ci, chunk in enumerate(gap_pair_ops()):
+        b = Builder(rng); b.ops = chunk; b.tags.add('unary>=256'); add('gap-lowlevel', b)
+    for lgk, n in [(10, 300), (12, 300), (12, 383), (13, 600)]:
+        b = Builder(rng)
+        r, sim = b.new_sketch(lgk, 9001); k = 1 << lgk
+        cells = set([((k - 1) << 6) | 0, ((k - 2) << 6) | 1])
+        while len(cells) < n:                      # all rows in the top half: the first pair's row gap is >= k/2
+            cells.add(((k // 2 + rng.randrange(k // 2)) << 6) | min(63, geometric(rng)))
+        for rc in sorted(cells, key=lambda x: rng.random()): b.ops.append([3, r, rc]); sim.add(rc)
+        b.probe(r, sim, True)
+        b.tags.add('unary>=256'); b.tags.add('flavor%d' % flavor_of(lgk, n))
+        add('gap-sketch', b)
     # (e) low-level codecs against the translated tables
     for rep in range(3 if quick else 12):
         b = Builder(rng)
@@ -465,6 +504,18 @@ def gen_big(rng, tier):
         c = rng.randrange(27 * k // 8 + 1, min(1 << 32, 60 * k))
         ops.append([33, lgk, c])
     cases.append(dict(id='phase', ops=ops, tags=['pseudo-phase']))
+    # large lg_k: few or many coupons in the last rows -> row gaps whose Golomb unary part is >= 256 / 512 / 65536; the
+    # deserialized sketch must have the same table and window (digest op 9 does not build the matrix)
+    for lgk, ns in [(16, [1, 2, 3, 10, 130, 300, 600]), (20, [1, 3, 130, 300, 70000]), (26, [1, 2, 10, 130, 300, 70000])]:
+        if tier == 'quick' and lgk == 26: ns = [1, 130, 300, 70000]
+        ops = []; k = 1 << lgk
+        for j, n in enumerate(ns):
+            r = 10 + 2 * j; ops.append([1, r, lgk, 9001])
+            rows = sorted(set([k - 1 - rng.randrange(k // 2) for _ in range(n)] + [k - 1]))[-n:] if n < 1000 else list(range(k - n, k))
+            for i, row in enumerate(rows):
+                ops.append([3, r, (row << 6) | (i % 3 if n >= 1000 else min(62, (5 * i) % 23))])
+            ops += [[9, r], [6, r, r + 1], [9, r + 1]]
+        cases.append(dict(id='gap%d' % lgk, ops=ops, tags=['unary>=256', 'lgk%d' % lgk]))
     return cases
 
 def oracle_big(case, irecs, mrecs):
@@ -486,6 +537,11 @@ def oracle_big(case, irecs, mrecs):
             fails.append(dict(sig='roundtrip_state', what='deserialized sketch differs from the original (coupons/offset/fic/flavor)', op_index=i))
         if op[0] == 4 and R != [-1] and R[2] != 1:
             fails.append(dict(sig='validate', what='validate() is false', op_index=i))
+        if op[0] == 9 and i >= 2 and case['ops'][i - 1][0] == 6 and case['ops'][i - 2][0] == 9:
+            if irecs[i - 1]['R'] == [-1]:
+                fails.append(dict(sig='serialize_throws', what='serialize()/deserialize() of a valid lg_k %d sketch throws' % case['ops'][0][2], op_index=i))
+            elif irecs[i - 2]['R'] != R:
+                fails.append(dict(sig='roundtrip_state', what='deserialize(serialize s) differs from s: digest %r vs %r' % (irecs[i - 2]['R'], R), op_index=i))
         if op[0] == 33 and R != [-1]:
             k = 1 << op[1]
             if 8 * op[2] >= 27 * k and R[0] >= 16:
